@@ -101,6 +101,18 @@ def pool_api():
     return out
 
 
+def pool_display():
+    """Display of values / trees / errors: values that literals cannot express arrive through bindings"""
+    binds = ['v=tuple:', 'v=tuple:int:1', 'v=tuple:int:1;int:2', 'v=tuple:empty', 'v=empty', 'v=int:-9223372036854775808', 'v=float:9221120237041090560', 'v=float:9218868437227405312',
+             'v=float:9223372036854775808', 'v=str:', 'v=str:2261c3a422', 'v=bool:0', 'v=tuple:str:61;float:0']
+    out = []
+    for b in binds:
+        for e in ['v', 'str::from(v)', '(v, v)', 'v + 1', 'v == v', 'len(v)', 'typeof(v)', 'v = 1']:
+            out.append(('eval', e, [b]))
+    out += [('tree', e, []) for e in ['()', '(())', '((), ())', ';', ',', '1, (), 2', 'f()', 'a = ()', '-()', '"\\"q\\""', '(1, (2, (3, ())))']]
+    return out
+
+
 def pool_iter():
     exprs = ['a', 'a + b', 'f(a)', 'f()', 'f() + b', 'now() + offset', 'a = 1;; b = a + c', 'f((), x) * y', '(); a', '(), a', ';;a', 'a;;', 'a = b', 'a += b; c', 'f g h', 'f(g(h), i) + j',
              '(a, (b, c)), d', '((a))', '-a ^ -b', 'a = f(b = c)', '1; 2; x', 'f(();())', 'min(a, ()) + z', '((),(),w)', 'p(q();r)', '""; k', 'true && b || c', 'total = total + step; other = total', 'a = a + 1; a', '(a, b) = f(c, d)', 'x += y; z -= w', 'f(a, g(b, c), d); e', '(a; b, c); d']
@@ -174,6 +186,7 @@ POOLS = [
     (('operator::eval', 'operator::eval_mut', 'value::', 'error::', 'vs::'), pool_operators),
     (('context::',), pool_api),
     (('context::',), pool_context),
+    (('display_fmt__', 'display'), pool_display),
     (('interface::',), pool_interface),
     (('tree::iter', 'iter::'), pool_iter),
     (('tree::eval', 'interface::', 'tree::Node'), pool_eval),
